@@ -1,4 +1,4 @@
-import Hannibal.Proofs.ActorBasic
+import Hannibal.Proofs.Tactics
 import Hannibal.Monitor.Basic
 /-
   Termination latch and doneness: the latch leaves `pending` exactly when the
@@ -8,14 +8,6 @@ namespace Hannibal
 open AState
 
 def DoneInv (s : AState) : Prop := (s.latch ≠ .pending ↔ s.isDone = true)
-
-/-- unfold every step function -/
-macro "unfold_steps" hs:ident : tactic => `(tactic|
-  simp only [step, stepBegin, stepRet, stepCdrop, stepMk, stepUpgrade, stepDetach, stepDrop, stepSignal,
-    stepQuery, stepCbBegin, stepCbEnd, stepCbAbandon, stepCbPanic, stepVnew, stepWork, stepCtxSignal,
-    stepCtxTimer, stepCtxWeak, stepFire, stepTimerArm, stepTimerEnd, stepTickBegin, stepTime, stepCancel,
-    stepTaskPanic, stepTaskDone, stepStreamReady, stepStreamEnd, stepDeq, stepChanEnd, stepStreamEndTau,
-    retEffect, beginWait, notifyEarly, toStopping, refreshTimers] at $hs:ident)
 
 set_option maxHeartbeats 1000000 in
 theorem step_done (w : Wiring) (hw : w.notifyAfterStopped = true) {s s' : AState} {l : Label}
@@ -34,6 +26,25 @@ theorem step_done (w : Wiring) (hw : w.notifyAfterStopped = true) {s s' : AState
             simp_all [isDone, fail, finish, cancelSlots, killTimers, setTimer, addOp, removeOp, removeHandle, push]; done)
        | (simp at hs; subst hs; cases hp : s.phase <;>
             simp_all [isDone, openCb, cancelSlots, curSlot]; done)))
+
+/-- doneness alone (no wiring hypothesis): the loop task ends exactly at the executor-level
+    termination events -/
+theorem step_isDone (w : Wiring) {s s' : AState} {l : Label} (hs : step w s l = some s') :
+    (l.terminates = true → s'.isDone = true) ∧ (l.terminates = false → s'.isDone = s.isDone) := by
+  cases l <;> unfold_steps hs <;> simp only [Label.terminates] <;>
+    ((repeat' (split at hs)) <;>
+     (first
+       | (simp at hs; done)
+       | (simp at hs; subst hs; simp_all [isDone, fail, finish, cancelSlots, killTimers, setTimer, addOp,
+            removeOp, removeHandle, push]; done)
+       | (simp at hs; subst hs; unfold answer; split <;>
+            simp_all [isDone, fail, finish, cancelSlots, killTimers, setTimer, addOp, removeOp, removeHandle, push]; done)
+       | (simp at hs; subst hs; cases hp : s.phase <;>
+            simp_all [isDone, openCb, cancelSlots, curSlot]; done)))
+
+theorem inCallback_not_done {s : AState} (h : s.inCallback = true) : s.isDone = false := by
+  unfold inCallback at h; unfold isDone
+  cases hp : s.phase <;> simp_all
 
 theorem doneInv_init (cfg : Cfg) (h0 : Nat) (k0 : HKind) : DoneInv (AState.init cfg h0 k0) := by
   simp [DoneInv, AState.init, isDone]
